@@ -335,9 +335,9 @@ theorem single_maxinst_repaired :
 /-- F-C18c: a labelled frame whose instances are all empty is skipped by the torch datasets and makes
 every chunk function raise (`np.stack` of nothing in `process_lf`). -/
 theorem sample_count_counterexample :
-    sampleCount .mem .bottomup { fr0 with insts := [[none, none]] } = some 0 ∧
-    sampleCount .stream .bottomup { fr0 with insts := [[none, none]] } = none := by
-  decide
+    sampleCount .mem .bottomup ({ fr0 with insts := [[none, none]] } : Frame Rat) = some 0 ∧
+    sampleCount .stream .bottomup ({ fr0 with insts := [[none, none]] } : Frame Rat) = none := by
+  decide +kernel
 
 /-- Layout only (not part of the statement): the streaming centred-instance sample carries its
 keypoints as `(1, 1, n, 2)`, the torch datasets as `(1, n, 2)`; the values are the same
